@@ -35,15 +35,17 @@ def BOp.isLogical : BOp → Bool
   | .and | .or => true
   | _ => false
 
-/-- Values. Strings are Lean strings (valid UTF-8; byte order = code point order), regexes are their
-pattern text, times are Unix nanoseconds. -/
+/-- Go strings are byte sequences (not necessarily valid UTF-8); comparison is byte-wise lexicographic. -/
+abbrev Bytes := List UInt8
+
+/-- Values. Strings are byte lists as in Go, regexes are their pattern text, times are Unix nanoseconds. -/
 inductive Value (F : Type) where
   | bool (b : Bool)
   | int (i : Int)
   | float (f : F)
-  | str (s : String)
+  | str (s : Bytes)
   | dur (d : Int)
-  | regex (pat : String)
+  | regex (pat : Bytes)
   | time (ns : Int)
   | missing
 deriving Repr, Inhabited, DecidableEq
@@ -70,6 +72,8 @@ structure FOps (F : Type) where
   ofInt : Int → F        -- `float64(i)`
   toI64 : F → Int        -- `int64(f)` / `time.Duration(f)` (implementation-defined outside the range)
   abs : F → F
+  min : F → F → F        -- `math.Min` / `math.Max` (their NaN, ±Inf and ±0 rules live in the instance)
+  max : F → F → F
   sqrt : F → F
   posInf : F
   negInf : F
@@ -153,7 +157,7 @@ deriving DecidableEq, Repr, Inhabited
 /-! ### generic interpreter of a result expression over two operand values -/
 
 section
-variable {F : Type} (ops : FOps F) (reMatch : String → String → Option Bool)
+variable {F : Type} (ops : FOps F) (reMatch : Bytes → Bytes → Option Bool)
 
 /-- Go integer `/`: panics on zero, truncates, wraps (`MinInt64 / -1 = MinInt64`). -/
 def goQuo (a b : Int) : Outcome Int := if b = 0 then .trap else .ok (wrap (Int.tdiv a b))
